@@ -325,28 +325,31 @@ def _check_written(ctx, skel, case, data):
     n_hits_g, n_holds_g = len(parsed["hits"]), len(parsed["holds"])
     per_lane = lambda lanes, kind: {c: sum(1 for e in v if e["kind"] == kind) for c, v in sorted(lanes.items()) if any(e["kind"] == kind for e in v)}  # noqa: E731
     foreign = parsed["ignored"]
+    lanes_ok = True  # False: objects sit in other lanes than expected, comparing lane by lane is meaningless
     if foreign:
+        lanes_ok = False
         ctx.fail("lane", f"{foreign} object(s) in channels that are neither tempo nor lanes of layout {layout}")
     raw_e = n_hits_e + 2 * n_holds_e
-    raw_g = n_hits_g + 2 * n_holds_g + foreign
+    raw_g = n_hits_g + 2 * n_holds_g
     orphan = "lnobj-without-head" in conf
+    detail = (
+        f"file hits {per_lane(got_lanes, 'hit')} holds {per_lane(got_lanes, 'hold')}; "
+        f"memory hits {per_lane(exp_lanes, 'hit')} holds {per_lane(exp_lanes, 'hold')}"
+    )
     if orphan:
-        ctx.fail("hold-pairing", "an LNOBJ object without a preceding head in its lane")
+        ctx.fail("hold-pairing", "an LNOBJ object without a preceding head in its lane; " + detail)
     if n_hits_g != n_hits_e or n_holds_g != n_holds_e:
-        detail = (
-            f"file hits {per_lane(got_lanes, 'hit')} holds {per_lane(got_lanes, 'hold')}; "
-            f"memory hits {per_lane(exp_lanes, 'hit')} holds {per_lane(exp_lanes, 'hold')}"
-        )
-        if raw_g != raw_e and not orphan:
-            ctx.fail("hit-count", f"{raw_g} lane objects in the file, {raw_e} expected (hits + 2*holds); " + detail)
-        else:
+        if raw_g + foreign == raw_e and foreign:
+            pass  # the missing objects are the ones in foreign channels: reported as 'lane'
+        elif raw_g + foreign != raw_e and not orphan:
+            ctx.fail("hit-count", f"{raw_g + foreign} note objects in the file, {raw_e} expected (hits + 2*holds); " + detail)
+        elif not orphan:
             ctx.fail("hold-pairing", "objects are paired differently: " + detail)
     elif per_lane(got_lanes, "hit") != per_lane(exp_lanes, "hit") or per_lane(got_lanes, "hold") != per_lane(exp_lanes, "hold"):
-        ctx.fail(
-            "lane",
-            f"file hits {per_lane(got_lanes, 'hit')} holds {per_lane(got_lanes, 'hold')}; "
-            f"memory hits {per_lane(exp_lanes, 'hit')} holds {per_lane(exp_lanes, 'hold')}",
-        )
+        lanes_ok = False
+        ctx.fail("lane", detail)
+    if not lanes_ok:
+        return
 
     # ---- objects: positions, samples, ms ---------------------------------------
     values = set(skel["samples"].values())
@@ -374,7 +377,7 @@ def _check_written(ctx, skel, case, data):
                         f"moved {float(abs(pg - pe)) * 192:.4f}/192 beat",
                     )
             smp = e["note"]["sample"]
-            if smp and smp in values and g["rec"]["sample"] != smp:
+            if ok and smp and smp in values and g["rec"]["sample"] != smp:
                 ctx.fail(
                     "sample",
                     f"lane {col} beat {e['beat']} ({e['kind']}): id {g['rec']['id']} -> #WAV {g['rec']['sample']!r}, memory sample {smp!r}",
@@ -432,8 +435,8 @@ SUBS = [
         "write",
         check_write,
         strategy=write_case,
-        examples={"quick": 300, "thorough": 2500},
-        shards={"quick": 12, "thorough": 16},
+        examples={"quick": 280, "thorough": 2500},
+        shards={"quick": 16, "thorough": 16},
     ),
     Sub("bigtempo", check_big, enumerate=big_cases, shards={"quick": 4, "thorough": 16}, exhaustive=False),
     Sub("limit", check_limit, enumerate=limit_cases, shards={"quick": 1, "thorough": 2}, exhaustive=False),
